@@ -254,6 +254,8 @@ class Env:
     async def callback(self, which):
         n = len(self.callbacks)
         self.callbacks.append((ticks(self.loop.time()), which))
+        if self.scenario.get("callback_delay"):
+            await asyncio.sleep(self.scenario["callback_delay"] * TICK)      # an application whose callbacks take their time (I/O of their own)
         if self.in_callback is not None:
             await self.in_callback(n, which)
         nested = self.scenario.get("callback_calls", {}).get(n)
@@ -517,6 +519,9 @@ def _fault(env, what):
         return
     c = env.net.conns[-1] if env.net.conns else None
     if c is None or c.conn_lost:
+        return
+    if what == "failw":            # the path is gone but nothing has told the client yet: its next write fails
+        c.fail_writes = True
         return
     if what == "block":            # the link is congested: the transport asks the client to pause writing
         c.block_writes()
